@@ -39,10 +39,9 @@ Theorem gstrs_first_offender_refuted :
 Proof. exact gstrs_first_offender_refuted_proof. Qed.
 Print Assumptions gstrs_first_offender_refuted.
 
-Theorem gstrs_conj_refuted :
-  exists a, spec_info (doc_gstrs PZ) a = 0 /\ gstrs_check PZ a = 0 /\ gstrs_final_info PZ a = -2.
-Proof. exact gstrs_conj_refuted_proof. Qed.
-Print Assumptions gstrs_conj_refuted.
+Theorem gstrs_final_is_own_check : forall p a, gstrs_final_info p a = gstrs_check p a.
+Proof. exact gstrs_final_is_own_check_proof. Qed.
+Print Assumptions gstrs_final_is_own_check.
 
 Theorem gsrfs_first_offender_partial :
   forall p a, 0 <= m_nc (gr_B a) -> m_nc (gr_X a) = m_nc (gr_B a) ->
